@@ -1,6 +1,7 @@
 package props
 
 import (
+	"strings"
 	"context"
 	"crypto/ecdsa"
 	"encoding/json"
@@ -247,10 +248,16 @@ func runForward(c fwdCase) (viol string) {
 	fwdCases++
 	var mu sync.Mutex
 	var got []ncsclient.ReceiptPayload
+	// every case has its own path prefix: a late POST of an EARLIER case that reaches this case's
+	// server (the port of a closed test server is reused) is not this case's business
+	prefix := fmt.Sprintf("/case-%d-%d", os.Getpid(), fwdCases)
 	record := func(r *http.Request) bool {
 		b, _ := io.ReadAll(r.Body)
+		if !strings.HasPrefix(r.URL.Path, prefix+"/") {
+			return false
+		}
 		var p ncsclient.ReceiptPayload
-		if r.Method != http.MethodPost || r.URL.Path != "/receipt" || json.Unmarshal(b, &p) != nil {
+		if r.Method != http.MethodPost || r.URL.Path != prefix+"/receipt" || json.Unmarshal(b, &p) != nil {
 			mu.Lock()
 			got = append(got, ncsclient.ReceiptPayload{Receipt: "<<malformed request " + r.Method + " " + r.URL.Path + ">>"})
 			mu.Unlock()
@@ -276,11 +283,11 @@ func runForward(c fwdCase) (viol string) {
 		w.WriteHeader(http.StatusOK)
 	}))
 	srv.Start()
-	url := srv.URL
+	url := srv.URL + prefix
 	if c.Mode == "down" {
 		// a port nobody listens on
 		l, _ := net.Listen("tcp", "127.0.0.1:0")
-		url = "http://" + l.Addr().String()
+		url = "http://" + l.Addr().String() + prefix
 		l.Close()
 	}
 	ch := make(chan ncsclient.ReceiptPayload, len(c.Subs)+1)
